@@ -353,6 +353,11 @@ func (e *Engine) Mark(h Hash) {
 		if already {
 			kind = "already-marked/" + kind
 		}
+		prunedTarget := n != nil && n != m.Genesis && !already &&
+			(m.MaybePruned[h] || (n.Parent != nil && m.MaybePruned[n.Parent.Hash]))
+		if prunedTarget {
+			kind = "at-or-below-memory-floor/" + kind
+		}
 		e.Stats["mark_"+kind]++
 		if pan != "" {
 			e.fail("C17", "marking-never-crashes", "mark-panic/"+kind, "MarkHeaderInvalid panicked: "+pan)
@@ -391,6 +396,23 @@ func (e *Engine) Mark(h Hash) {
 				tipNode = t
 			}
 		}
+		if tipNode == nil && anyDropped(m, tips) {
+			// the heaviest remaining chain in the model ends in a side branch that a Load may
+			// legitimately have dropped from memory: the repository may then fall back to the
+			// heaviest chain among the headers it certainly still holds; that resolves which case
+			// it was, but this instance is not followed further
+			for _, t := range maxWorkTipsHeldForSure(m) {
+				if t.Hash == after.Last {
+					tipNode = t
+				}
+			}
+			if tipNode != nil {
+				e.Stats["mark_tip_is_heaviest_without_maybe_dropped_branches"]++
+				m.Tip = tipNode
+				in.Tainted = true
+				continue
+			}
+		}
 		if tipNode == nil {
 			what := "still-contains-marked"
 			if _, gone := m.Nodes[after.Last]; gone {
@@ -402,6 +424,10 @@ func (e *Engine) Mark(h Hash) {
 			continue
 		}
 		m.Tip = tipNode
+		if prunedTarget {
+			in.Tainted = true
+			continue
+		}
 		if n == nil || already {
 			if cat, det := DiffSnap(before, after, "all"); cat != "" {
 				e.fail("C17", "marking-unknown-hash-only-preempts", "mark-noop-changed-state/"+kind+"/"+cat, det)
@@ -596,4 +622,41 @@ func forkPoint(a, b *Node) *Node {
 		return a
 	}
 	return nil
+}
+
+
+func anyDropped(m *Model, tips []*Node) bool {
+	for _, t := range tips {
+		if m.MaybeDropped[t.Hash] {
+			return true
+		}
+	}
+	return false
+}
+
+// maxWorkTipsHeldForSure returns the most-work leaves of the held tree with every header that a
+// Load may have dropped taken out.
+func maxWorkTipsHeldForSure(m *Model) []*Node {
+	var out []*Node
+	for _, x := range m.Nodes {
+		if m.MaybeDropped[x.Hash] {
+			continue
+		}
+		leaf := true
+		for _, c := range m.LiveChildren(x) {
+			if !m.MaybeDropped[c.Hash] {
+				leaf = false
+			}
+		}
+		if !leaf {
+			continue
+		}
+		switch {
+		case len(out) == 0 || x.Cum.Cmp(out[0].Cum) > 0:
+			out = []*Node{x}
+		case x.Cum.Cmp(out[0].Cum) == 0:
+			out = append(out, x)
+		}
+	}
+	return out
 }
